@@ -29,6 +29,8 @@ def r10_1(ctx):
         pubs = q.prim_edges({'publish_replace', 'publish_excl'})
         first = pubs + [e for e in q.prim_edges({'meta_times', 'meta_perm'}) if path_class(ctx, q, arg_role(q.E[e][2], 'path')) == 'Value']
         bad = q.must_precede(consult, first)
+        if not pubs:
+            out.append(inst('R10.1', 'cachedir.%s|publish found' % role, False, 'no publish event found on the state graph of %s (anchor lost)' % role))
         out.append(inst('R10.1', 'cachedir.%s|trigger consulted' % role, bool(consult) and not bad,
                         'the trigger is consulted before the first step of every publish (%d publish-body events)' % len(first) if consult and not bad else
                         'a write can publish without consulting the maintenance trigger',
